@@ -30,11 +30,11 @@ VARIABLES cap,
           handed, conn, engConn, onBehalf, willOk,              \* C04
           obsOf, obsIdx, obsRetAt, obsSt, nObs, dataTag, dataPend, dataPre, \* C02 registration state
           stage, seen, mustObs, annAtClose,                     \* C02 per-session close progress
-          lifeCalled, tdAt, tdUj,
+          lifeCalled, tdAt, tdUj, cancelled,
           owed        \* owed[s]: bytes a receive has skipped because a CONCURRENT receive on s (called earlier, not returned yet in
                       \* the log) took them - two threads may log their returns in either order; each must still be returned
 vars == <<l, cap, arrived, arrDone, disab, cur, closedAt, ovfSeen, maxBacklog, pendRecv, pendFlush, handed, conn, engConn, onBehalf,
-          willOk, obsOf, obsIdx, obsRetAt, obsSt, nObs, dataTag, dataPend, dataPre, stage, seen, mustObs, annAtClose, lifeCalled, tdAt, tdUj, owed>>
+          willOk, obsOf, obsIdx, obsRetAt, obsSt, nObs, dataTag, dataPend, dataPre, stage, seen, mustObs, annAtClose, lifeCalled, tdAt, tdUj, cancelled, owed>>
 
 FS(v) == [s \in Sess |-> v]
 NoConn == [st |-> "idle", to |-> 0, vt |-> 0, sid |-> -1]
@@ -45,7 +45,7 @@ Canon(c) == /\ cap' = c
             /\ obsOf' = [g \in Tags |-> -1] /\ obsIdx' = [g \in Tags |-> 0] /\ obsRetAt' = [g \in Tags |-> 0] /\ obsSt' = [g \in Tags |-> "none"] /\ nObs' = 0
             /\ dataTag' = FS("-") /\ dataPend' = FS({}) /\ dataPre' = FS(FALSE)
             /\ stage' = FS("none") /\ seen' = FS(<<>>) /\ mustObs' = FS({}) /\ annAtClose' = FS(FALSE)
-            /\ lifeCalled' = FALSE /\ tdAt' = -1 /\ tdUj' = 0 /\ owed' = FS({})
+            /\ lifeCalled' = FALSE /\ tdAt' = -1 /\ tdUj' = 0 /\ cancelled' = FALSE /\ owed' = FS({})
 Init == /\ l = 1 /\ cap = 0
         /\ arrived = FS(0) /\ arrDone = FS(0) /\ disab = FS({}) /\ cur = FS(0) /\ closedAt = FS(-1) /\ ovfSeen = FS(FALSE) /\ maxBacklog = FS(0)
         /\ pendRecv = {} /\ pendFlush = {}
@@ -53,14 +53,14 @@ Init == /\ l = 1 /\ cap = 0
         /\ obsOf = [g \in Tags |-> -1] /\ obsIdx = [g \in Tags |-> 0] /\ obsRetAt = [g \in Tags |-> 0] /\ obsSt = [g \in Tags |-> "none"] /\ nObs = 0
         /\ dataTag = FS("-") /\ dataPend = FS({}) /\ dataPre = FS(FALSE)
         /\ stage = FS("none") /\ seen = FS(<<>>) /\ mustObs = FS({}) /\ annAtClose = FS(FALSE)
-        /\ lifeCalled = FALSE /\ tdAt = -1 /\ tdUj = 0 /\ owed = FS({})
+        /\ lifeCalled = FALSE /\ tdAt = -1 /\ tdUj = 0 /\ cancelled = FALSE /\ owed = FS({})
 EvReset == IsEv("Reset") /\ Canon(0)
 EvBegin == IsEv("Begin") /\ Canon(Ev.cap)
 
 C03U == UNCHANGED <<arrived, arrDone, disab, cur, closedAt, ovfSeen, maxBacklog, pendRecv, pendFlush>>
 C04U == UNCHANGED <<handed, conn, engConn, onBehalf, willOk>>
 C02U == UNCHANGED <<obsOf, obsIdx, obsRetAt, obsSt, nObs, dataTag, dataPend, dataPre, stage, seen, mustObs, annAtClose>>
-Keep0 == UNCHANGED <<cap, lifeCalled, tdAt, tdUj>>
+Keep0 == UNCHANGED <<cap, lifeCalled, tdAt, tdUj, cancelled>>
 Keep == Keep0 /\ UNCHANGED owed
 \* a call that was blocked or in flight when destruction began returns within this much (virtual) time of its beginning
 \* (judged on the call's own deadline, which no other thread's time-out can move: once destruction has begun, a call may
@@ -176,7 +176,8 @@ EvConnCall == /\ IsEv("ConnCall") /\ conn[Ev.t].st = "idle"
               /\ UNCHANGED <<handed, engConn, onBehalf, willOk>> /\ C03U /\ C02U /\ Keep
 \* the engine handed out a session id: to a connectSync in flight on that thread, or to the application (plain connect)
 EvEngConnReq == /\ IsEv("EngConnReq")
-                /\ IF conn[Ev.by].st = "called" /\ conn[Ev.by].sid = -1
+                /\ IF conn[Ev.by].st = "called" /\ (conn[Ev.by].sid = -1 \/ conn[Ev.by].sid \in onBehalf)  \* (a cancellable
+                                                            \* connect makes several attempts, each closed before the next)
                    THEN conn' = [conn EXCEPT ![Ev.by].sid = Ev.s] /\ UNCHANGED handed
                    ELSE handed' = handed \cup {Ev.s} /\ UNCHANGED conn
                 /\ UNCHANGED <<engConn, onBehalf, willOk>> /\ C03U /\ C02U /\ Keep
@@ -195,6 +196,7 @@ EvConnRet ==
             /\ handed' = handed \cup {Ev.s}
        ELSE /\ c.sid \notin willOk                           \* a session the application already saw closing belongs to it
             /\ CASE Ev.err = "Timeout" -> Ev.vt - c.vt >= c.to /\ (c.sid = -1 \/ c.sid \in onBehalf) /\ TimeoutOk(c.vt, c.to)
+                 [] Ev.err = "Cancelled" -> cancelled /\ (c.sid = -1 \/ c.sid \in onBehalf)   \* leaves no open connection behind
                  [] Ev.err = "ShuttingDown" -> lifeCalled
                  [] OTHER -> TRUE
             /\ UNCHANGED handed
@@ -276,7 +278,8 @@ EvCloseRet == /\ IsEv("CloseRet") /\ stage[Ev.s] \in {"start", "global", "obs", 
               /\ UNCHANGED <<obsOf, obsIdx, obsRetAt, obsSt, nObs, dataTag, dataPend, dataPre, seen, mustObs, annAtClose>> /\ C03U /\ C04U /\ Keep
 
 \* ---- C05 --------------------------------------------------------------------------------------------
-EvLifeCall == /\ IsEv("LifeCall") /\ lifeCalled' = TRUE /\ UNCHANGED <<cap, owed>> /\ C03U /\ C04U /\ C02U
+EvCancelCall == /\ IsEv("CancelCall") /\ cancelled' = TRUE /\ UNCHANGED <<cap, lifeCalled, tdAt, tdUj, owed>> /\ C03U /\ C04U /\ C02U
+EvLifeCall == /\ IsEv("LifeCall") /\ lifeCalled' = TRUE /\ UNCHANGED <<cap, owed, cancelled>> /\ C03U /\ C04U /\ C02U
               /\ tdAt' = IF Ev.op \in {"destroy", "destroy_in_cb"} /\ tdAt < 0 THEN Ev.vt ELSE tdAt
               /\ tdUj' = IF Ev.op \in {"destroy", "destroy_in_cb"} /\ tdAt < 0 THEN Uj ELSE tdUj
 EvLifeRet == IsEv("LifeRet") /\ C03U /\ C04U /\ C02U /\ Keep
@@ -287,7 +290,7 @@ EvEnd == /\ IsEv("End") /\ Ev.outcome # "stuck"                                 
          /\ (Ev.outcome = "done") => \A s \in Sess : owed[s] = {}            \* every skipped byte was returned by its taker
          /\ C03U /\ C04U /\ C02U /\ Keep
 
-Next == EvReset \/ EvBegin \/ EvObserveCall \/ EvSetDataCall \/ EvArriveCall \/ EvArriveRet \/ EvData \/ EvRecvCall \/ EvRecvRet \/ EvModeCall \/ EvModeRet
+Next == EvCancelCall \/ EvReset \/ EvBegin \/ EvObserveCall \/ EvSetDataCall \/ EvArriveCall \/ EvArriveRet \/ EvData \/ EvRecvCall \/ EvRecvRet \/ EvModeCall \/ EvModeRet
         \/ EvExpectAll \/ EvConnCall \/ EvEngConnReq \/ EvAsyncConnRet \/ EvEngConnected \/ EvEngConnFail \/ EvEngClose
         \/ EvConnRet \/ EvGlobalConnect \/ EvAcceptCall \/ EvGlobalAccept \/ EvObserveRet \/ EvUnobserveCall \/ EvUnobserveRet
         \/ EvSetDataRet \/ EvCloseCall \/ EvGlobalClose \/ EvObs \/ EvCleanup \/ EvCloseRet \/ EvLifeCall \/ EvLifeRet
